@@ -530,6 +530,9 @@ def check(prop, tier):
         instrumentation=report["counts"],
         yield_sites_executed_approx=(yield_sites_hit if cfg["race"] else None),
         yield_sites_inserted=sum(v for k, v in report["counts"].items() if k.startswith("yield_") or k in ("lock", "unlock", "once")),
+        order_sites_never_permuted=(sorted(x["site"] + " (" + x.get("func", "") + ")" for x in report.get("sites", [])
+                                            if not x["kind"].startswith("yield") and x["kind"] not in ("lock", "unlock", "once")
+                                            and x["site"] not in (stats.get("site_permuted") or {})) if not cfg["race"] else None),
         uncontrolled_sites=report.get("uncontrolled") or [],
         unmodelled_sync=report.get("unmodelled") or [],
         components=COMPONENTS[prop],
